@@ -22,6 +22,7 @@ worker (a growing suffix of the preceding cases is tried if it does not reproduc
 alone).
 """
 import collections
+import atexit
 import json
 import os
 import re
@@ -64,10 +65,20 @@ class Worker:
     def __init__(self, wid, symbolize=False):
         self.wid = wid
         self.symbolize = symbolize
-        self.progress = os.path.join(CACHE, "progress-%s" % wid)
-        self.errpath = os.path.join(CACHE, "stderr-%s" % wid)
+        # per-process names: two runs of this check at the same time (quick and thorough, or against two
+        # trees) must not read each other's progress files - a death would be attributed to nothing
+        self.progress = os.path.join(CACHE, "progress-%d-%s" % (os.getpid(), wid))
+        self.errpath = os.path.join(CACHE, "stderr-%d-%s" % (os.getpid(), wid))
+        atexit.register(self._cleanup)
         self.p = None
         self.hello = None
+
+    def _cleanup(self):
+        for p in (self.progress, self.errpath):
+            try:
+                os.unlink(p)
+            except OSError:
+                pass
 
     def start(self):
         env = worker_env(self.symbolize)
